@@ -20,8 +20,10 @@ def parse256 (b : Bytes) : Nat := BE.ofBytes b
 /-! ### Base58 / Base58Check -/
 namespace Base58
 
-def alphabet : String := "123456789ABCDEFGHJKLMNPQRSTUVWXYZabcdefghijkmnopqrstuvwxyz"
-def alphaBytes : Bytes := alphabet.toUTF8.toList
+/-- 123456789ABCDEFGHJKLMNPQRSTUVWXYZabcdefghijkmnopqrstuvwxyz -/
+def alphabet : List Char :=
+  ['1', '2', '3', '4', '5', '6', '7', '8', '9', 'A', 'B', 'C', 'D', 'E', 'F', 'G', 'H', 'J', 'K', 'L', 'M', 'N', 'P', 'Q', 'R', 'S', 'T', 'U', 'V', 'W', 'X', 'Y', 'Z', 'a', 'b', 'c', 'd', 'e', 'f', 'g', 'h', 'i', 'j', 'k', 'm', 'n', 'o', 'p', 'q', 'r', 's', 't', 'u', 'v', 'w', 'x', 'y', 'z']
+def alphaBytes : Bytes := ascii alphabet
 def digitChar (d : Nat) : UInt8 := alphaBytes.getD d 0
 def charDigit? (c : UInt8) : Option Nat :=
   let i := alphaBytes.findIdx (· = c)
@@ -38,11 +40,14 @@ def digits (x : Nat) : Bytes := digitsAux x x
 def encode (b : Bytes) : Bytes :=
   List.replicate (b.takeWhile (· = 0)).length 49 ++ digits (BE.ofBytes b)
 
+/-- one more character: shift by 58 and add its digit; none once a character is not in the alphabet -/
+def step (acc : Option Nat) (c : UInt8) : Option Nat :=
+  match acc, charDigit? c with
+  | some a, some d => some (a * 58 + d)
+  | _, _ => none
+
 /-- value of a string of base-58 characters, most significant first; none if a character is not in the alphabet -/
-def value? : Bytes → Option Nat
-  | s => s.foldl (fun acc c => match acc, charDigit? c with
-      | some a, some d => some (a * 58 + d)
-      | _, _ => none) (some 0)
+def value? (s : Bytes) : Option Nat := s.foldl step (some 0)
 
 /-- one zero byte per leading '1', then the number as minimal big-endian bytes -/
 def decode? (s : Bytes) : Option Bytes :=
@@ -135,7 +140,8 @@ def neuter (x : XKey C.Pt) : Except Bip32Err (XKey C.Pt) :=
     | none => .error .version
     | some v => .ok { x with version := v, key := .pub (point C k) }
 
-def bitcoinSeed : Bytes := "Bitcoin seed".toUTF8.toList
+/-- "Bitcoin seed" -/
+def bitcoinSeed : Bytes := ascii ['B', 'i', 't', 'c', 'o', 'i', 'n', ' ', 's', 'e', 'e', 'd']
 
 /-- master key generation from a seed of 128 to 512 bits -/
 def master (seed : Bytes) : Except Bip32Err (XKey C.Pt) :=
